@@ -16,8 +16,12 @@ Streams (every case derives from common.case_rng(PID + "/<stream>", seed, shard,
             the initial-simplex rule and the convergence test as each program computes them).  Start points over the whole
             float range (signed zeros, round-off zeros, 1e-8 +- 1 ulp, denormals, > 2**53, > 1e154, max/1.05), tolerances
             and limits exactly on / one ulp (one count) either side of the values a run passes: harness/c08_nm.py.
-  powell  - real fmin_powell vs the reference fmin_powell (same Brent); the direction-set bookkeeping replayed
-            by the Lean model (Model/Powell.lean) with the recorded line searches as oracle.
+            The solver's own keywords: adaptive (Gao-Han coefficients; Model/NMInit.lean `mysticCoef`) and radius, via Solve(...) or
+            attributes, against the reference's source with exactly those three assignments parametrised, and against the
+            installed scipy's Nelder-Mead; one-dimensional problems and objectives that force shrink steps.
+  powell  - real fmin_powell / PowellDirectionalSolver.Solve vs the reference fmin_powell (same Brent, same arguments); the
+            direction-set bookkeeping replayed by the Lean model (Model/Powell.lean) with the recorded line searches as oracle.
+            Direction sets of every element type and container (gen_direc / direc_arg), xtol and imax over their ranges.
 Monitors evaluate the property's own statement on what the real code returned, independently of the model."""
 import sys, os, time, math, json, random as _random
 import numpy as np
@@ -51,6 +55,9 @@ THEOREMS = [
     "MysticVerif.C08.nm_initial_simplex_rule_field",
     "MysticVerif.C08.nm_refines_ref_concrete_init",
     "MysticVerif.C08.nm_convergence_test_iff",
+    "MysticVerif.C08.nm_coefficients_are_published",
+    "MysticVerif.C08.nm_adaptive_one_dimension",
+    "MysticVerif.C08.nm_adaptive_two_dimensions_is_standard",
     "MysticVerif.C08.powell_refines_ref",
     "MysticVerif.C08.powell_first_iteration_gap",
     "MysticVerif.C08.powell_bigind_valid",
@@ -498,8 +505,10 @@ def fmin_request(which, c, zdelt):
     N = c["dim"]
     mi = c["maxiter"] if c["maxiter"] is not None else N * 200
     mf = c["maxfun"] if c["maxfun"] is not None else N * 200
-    return "C08 fmin (which %s) (cost (scalar %s)) (x0 %s) (xtol %s) (ftol %s) (maxiter %d) (maxfun %d) (zdelt %s) (radius %s)" % (
-        which, dsl.expr_sexp(c["expr"]), fl(c["x0"]), f2b(c["xtol"]), f2b(c["ftol"]), mi, mf, f2b(zdelt), f2b(RADIUS))
+    rad = RADIUS if c.get("radius") is None else float(c["radius"])
+    return "C08 fmin (which %s) (cost (scalar %s)) (x0 %s) (xtol %s) (ftol %s) (maxiter %d) (maxfun %d) (zdelt %s) (radius %s) (adaptive %s)" % (
+        which, dsl.expr_sexp(c["expr"]), fl(c["x0"]), f2b(c["xtol"]), f2b(c["ftol"]), mi, mf, f2b(zdelt), f2b(rad),
+        "true" if c.get("adaptive") else "false")
 
 
 def feq(a, b):
@@ -633,14 +642,132 @@ def gen_powell_case(rng, tier):
                 e = NMX.scaled_cost(rng, x0)
     xtol = rng.choice([1e-4, 1e-4, 1e-2, 1e-6]); ftol = rng.choice([1e-4, 1e-4, 1e-2, 1e-6, 1e-10])
     maxiter = rng.choice([None] * 10 + [0, 1, 2, 3, 5]); maxfun = rng.choice([None] * 10 + [0, 1, 5, 20, 60, 100])
-    direc = None
-    if rng.random() < 0.25:
-        direc = [[(1.0 if i == j else 0.0) * rng.choice([1.0, 0.5, -2.0]) + (rng.choice([0.0, 0.0, 0.25, -0.5]) if i != j else 0.0)
-                  for j in range(dim)] for i in range(dim)]
+    direc, dkind, dfam = gen_direc(rng, dim)
+    # how the guess is handed over: list / tuple / float ndarray / python ints / integer ndarray (both programs coerce to float64 once)
+    x0kind = rng.choice(["list"] * 5 + ["tuple", "ndarray", "int", "int", "int-ndarray"])
+    if x0kind in ("int", "int-ndarray"):
+        if all(abs(v) < 2 ** 53 and v == math.floor(v) for v in x0):
+            x0 = [float(int(v)) for v in x0]          # what the callee sees: the int 0 for a -0.0
+        else:
+            x0kind = "list"
+    # the line-search tolerance over its whole range: Brent's `tol` is xtol*100 (0 and denormal: stops on maxiter or on
+    # rounding only; >= 1e-2: tol >= 1, the first parabolic step ends the search)
+    if rng.random() < 0.12:
+        xtol = rng.choice([0.0, 1e-300, 5e-324, 1e-12, 1e-9, 1e-3, 0.5, 1.0, 3.0, 2.0 ** -20, dyadic(rng, 0, 1, 10) or 0.25])
     # the user's cap on Brent's iterations, `solver.Solve(cost, imax=k)`: must bind at ALL three line-search call sites
-    imax = rng.choice([None] * 5 + [1, 2, 3, 4, 5, 6])
+    imax = rng.choice([None] * 5 + [0, 1, 2, 3, 4, 5, 6, 10, 40])
+    # how the call is made: the one-liner, or the solver class with the keywords given to Solve / set as attributes
+    route = rng.choice(["fmin_powell"] * 3 + ["solver-kwds", "solver-attributes"])
     return {"dim": dim, "expr": e, "x0": x0, "xtol": xtol, "ftol": ftol, "maxiter": maxiter, "maxfun": maxfun, "direc": direc,
-            "at_opt": at_opt, "imax": imax}
+            "direc_kind": dkind, "direc_family": dfam, "at_opt": at_opt, "imax": imax, "route": route, "x0kind": x0kind}
+
+
+INT_KINDS = ["list-int", "list-int", "tuple-int", "ndarray-int64", "ndarray-int64", "ndarray-int32", "ndarray-int8", "ndarray-object-int",
+             "list-of-int-arrays", "ndarray-int64-transposed-view", "list-mixed-int-float", "eye-int"]
+FLOAT_KINDS = ["list-float", "list-float", "tuple-float", "ndarray-float64", "ndarray-float64-F-order", "ndarray-float32", "list-of-float-arrays",
+               "ndarray-float16"]
+
+
+def gen_direc(rng, dim):
+    """the initial direction set over the keyword's whole space: (rows as python floats | None, how it is handed over, family).
+    Families: identity written out, permutations, signed permutations, +-1 'diagonal' bases, small-integer matrices,
+    scaled / skew float bases, generic float bases, a singular set (repeated or zero row).  Containers: nested lists /
+    tuples of python ints or floats (or both), ndarrays of every integer width, bool, object, float16/32/64, C / Fortran order,
+    transposed views, lists of row arrays.  The algorithm is defined on real directions: the container's element type
+    must not matter (the reference coerces to float64 once, l.1834-1837)."""
+    if rng.random() < 0.45:
+        return None, "none", "default"
+    I = [[1.0 if i == j else 0.0 for j in range(dim)] for i in range(dim)]
+    perm = list(range(dim)); rng.shuffle(perm)
+    fam = rng.choice(["identity", "permutation", "signed-permutation", "pm1", "small-int", "small-int", "scaled-skew", "float-generic", "singular"])
+    if fam == "identity":
+        rows = I
+    elif fam == "permutation":
+        rows = [I[p] for p in perm]
+    elif fam == "signed-permutation":
+        rows = [[v * rng.choice([1.0, -1.0, 2.0, -3.0]) for v in I[p]] for p in perm]
+    elif fam == "pm1":
+        rows = [[(1.0 if (j <= i or rng.random() < 0.5) else -1.0) if i != j else (1.0 if i == 0 else -1.0) for j in range(dim)] for i in range(dim)]
+        if dim == 2:
+            rows = rng.choice([[[1.0, 1.0], [1.0, -1.0]], [[1.0, 1.0], [-1.0, 1.0]], [[1.0, -1.0], [1.0, 1.0]]])
+    elif fam == "small-int":
+        rows = [[float(rng.randint(-2, 2)) + (2.0 if i == j else 0.0) for j in range(dim)] for i in range(dim)]
+    elif fam == "scaled-skew":
+        rows = [[(1.0 if i == j else 0.0) * rng.choice([1.0, 0.5, -2.0]) + (rng.choice([0.0, 0.0, 0.25, -0.5]) if i != j else 0.0)
+                 for j in range(dim)] for i in range(dim)]
+    elif fam == "float-generic":
+        rows = [[rng.uniform(-2, 2) for j in range(dim)] for i in range(dim)]
+    else:
+        rows = [list(r) for r in I]
+        rows[rng.randrange(dim)] = [0.0] * dim if rng.random() < 0.5 else list(rows[0])
+    rows = [[v + 0.0 for v in r] for r in rows]                 # no negative zeros (an integer container cannot hold one)
+    integral = all(v == math.floor(v) for r in rows for v in r)
+    if integral:
+        kind = rng.choice(INT_KINDS * 2 + FLOAT_KINDS)
+        if kind == "eye-int" and fam != "identity":
+            kind = "ndarray-int64"
+        if all(v in (0.0, 1.0) for r in rows for v in r) and rng.random() < 0.15:
+            kind = rng.choice(["ndarray-bool", "ndarray-uint8", "list-bool"])
+    else:
+        kind = rng.choice(FLOAT_KINDS)
+        if kind in ("ndarray-float32", "ndarray-float16"):
+            rows = [[float(getattr(np, kind[8:])(v)) for v in r] for r in rows]        # the values the caller's array holds
+    return rows, kind, fam
+
+
+def direc_arg(c):
+    """a FRESH object of the kind the case names (both programs may write into what they are handed)"""
+    rows = c["direc"]; kind = c.get("direc_kind", "list-float")
+    if rows is None:
+        return None
+    ints = lambda: [[int(v) for v in r] for r in rows]
+    if kind == "list-float":
+        return [list(r) for r in rows]
+    if kind == "tuple-float":
+        return tuple(tuple(r) for r in rows)
+    if kind == "list-int":
+        return ints()
+    if kind == "tuple-int":
+        return tuple(tuple(r) for r in ints())
+    if kind == "list-bool":
+        return [[bool(v) for v in r] for r in rows]
+    if kind == "list-mixed-int-float":
+        return [[(int(v) if (i + j) % 2 == 0 else float(v)) for j, v in enumerate(r)] for i, r in enumerate(rows)]
+    if kind == "eye-int":
+        return np.eye(len(rows), dtype=int)
+    if kind == "list-of-int-arrays":
+        return [np.array(r, dtype=int) for r in ints()]
+    if kind == "list-of-float-arrays":
+        return [np.array(r, dtype=float) for r in rows]
+    if kind == "ndarray-object-int":
+        return np.array(ints(), dtype=object)
+    if kind == "ndarray-int64-transposed-view":
+        return np.array(ints(), dtype=np.int64).T.copy().T          # same values, Fortran-ordered memory
+    if kind == "ndarray-float64-F-order":
+        return np.asfortranarray(np.array(rows, dtype=float))
+    if kind.startswith("ndarray-"):
+        dt = kind[8:]
+        return np.array(ints() if dt.startswith(("int", "uint", "bool")) else rows, dtype=getattr(np, dt if dt != "bool" else "bool_"))
+    raise ValueError(kind)
+
+
+def direc_class(c):
+    k = c.get("direc_kind", "none")
+    if c["direc"] is None:
+        return "default"
+    if "mixed" in k:
+        return "mixed-int-float-entries"
+    if "bool" in k:
+        return "bool-entries"
+    if "int" in k:
+        return "integer-entries"
+    return "float-entries"
+
+
+def powell_x0_arg(c):
+    if c.get("x0kind") == "int-ndarray":
+        return np.array([int(v) for v in c["x0"]], dtype=np.int64)
+    return NMX.x0_arg(c)
 
 
 def run_powell(which, c):
@@ -685,16 +812,36 @@ def run_powell(which, c):
             REF.brent = capped
     try:
         kw = dict(xtol=c["xtol"], ftol=c["ftol"], maxiter=c["maxiter"], maxfun=c["maxfun"], full_output=1, disp=0,
-                  callback=lambda x: cbs.append(vec(x)), direc=[list(r) for r in c["direc"]] if c["direc"] is not None else None)
-        if which == "mystic":
-            x, f, it, fc, wf, direc = SO.fmin_powell(cost, list(c["x0"]), **kw)
+                  callback=lambda x: cbs.append(vec(x)), direc=direc_arg(c))
+        route = c.get("route", "fmin_powell")
+        if which == "mystic" and route != "fmin_powell":
+            # the solver class driven as fmin_powell drives it (l.905-931), keywords to Solve or set as (sticky) attributes
+            from mystic.termination import NormalizedChangeOverGeneration as NCOG
+            SO.PowellDirectionalSolver.Solve = orig_solve
+            s = SO.PowellDirectionalSolver(len(c["x0"]))
+            s.SetInitialPoints(powell_x0_arg(c))
+            s.SetEvaluationLimits(c["maxiter"], c["maxfun"])
+            skw = dict(callback=kw["callback"], disp=0, direc=kw["direc"])
+            if route == "solver-kwds":
+                skw["xtol"] = c["xtol"]
+                if imax is not None:
+                    skw["imax"] = imax
+            else:
+                s.xtol = c["xtol"]
+                if imax is not None:
+                    s.imax = imax
+            s.Solve(cost, termination=NCOG(c["ftol"], 2), **skw)
+            x, f, it, fc, direc = np.squeeze(s.bestSolution), s.bestEnergy, s.generations, s.evaluations, s._direc
+            wf = 1 if fc >= s._maxfun else (2 if it >= s._maxiter else 0)
+        elif which == "mystic":
+            x, f, it, fc, wf, direc = SO.fmin_powell(cost, powell_x0_arg(c), **kw)
         else:
-            x, f, direc, it, fc, wf = REF.fmin_powell(cost, list(c["x0"]), **kw)
+            x, f, direc, it, fc, wf = REF.fmin_powell(cost, powell_x0_arg(c), **kw)
     finally:
         mod._linesearch_powell = orig
         SO.PowellDirectionalSolver.Solve = orig_solve; REF.brent = orig_brent
     return {"x": vec(x), "f": float(f), "iter": int(it), "fcalls": int(fc), "warn": int(wf), "direc": [vec(r) for r in np.atleast_2d(direc)],
-            "ncalls": len(calls), "ls": ls_log, "cbs": cbs, "outside": outside, "events": events,
+            "direc_dtype": str(np.asarray(direc).dtype), "ncalls": len(calls), "ls": ls_log, "cbs": cbs, "outside": outside, "events": events,
             "nan": any(y != y or abs(y) == math.inf for _, y in calls)}
 
 
@@ -734,17 +881,24 @@ def powell_monitor(c, a, b, hist):
     hadd(hist, "powell:direction-replacements", max(replaced, 0))
     hadd(hist, "powell:extrapolations", max(len(b["outside"]) - 1, 0))
     hadd(hist, "powell:stop:%s" % {0: "converged", 1: "maxfun", 2: "maxiter"}[b["warn"]])
+    dcl = direc_class(c)
+    sfx = "" if dcl == "default" else "/direction-set-given-with-%s" % dcl
+    hadd(hist, "powell:direc:%s" % dcl); hadd(hist, "powell:direc-container:%s" % c.get("direc_kind", "none"))
+    hadd(hist, "powell:direc-family:%s" % c.get("direc_family", "default")); hadd(hist, "powell:route:%s" % c.get("route", "fmin_powell"))
+    if replaced > 0:
+        hadd(hist, "powell:direc:%s:run-with-direction-replacement" % dcl)
     if not prefix_ok or not cb_ok:
         i = next((i for i in range(nls) if not ls_same(a["ls"][i], b["ls"][i])), nls)
-        out.append(("fmin_powell/steps-diverge", "line search %d: fmin_powell %r ; reference %r (callbacks agree: %r)"
-                    % (i, a["ls"][i] if i < len(a["ls"]) else None, b["ls"][i] if i < len(b["ls"]) else None, cb_ok)))
+        out.append(("fmin_powell/steps-diverge" + sfx, "direc=%r given as %s (returned with dtype %s), route %s: line search %d: fmin_powell %r ; reference %r (callbacks agree: %r)"
+                    % (c["direc"], c.get("direc_kind"), a.get("direc_dtype"), c.get("route"), i, a["ls"][i] if i < len(a["ls"]) else None,
+                       b["ls"][i] if i < len(b["ls"]) else None, cb_ok)))
     elif not same:
         if first_iter_conv:
             out.append(("fmin_powell/stops-later-than-reference/reference-converged-in-first-iteration",
                         "x0=%r ftol=%r: the reference stops after iteration 1 (fx=%r, fval=%r, %d calls); fmin_powell continues to iteration %d (%d calls), fval=%r"
                         % (c["x0"], c["ftol"], b["ls"] and b["outside"][0][1], b["f"], b["fcalls"], a["iter"], a["fcalls"], a["f"])))
         else:
-            out.append(("fmin_powell/differs-from-reference", "fmin_powell -> x=%r f=%r (iter, funcalls, warnflag)=%r direc=%r ; reference -> x=%r f=%r %r direc=%r"
+            out.append(("fmin_powell/differs-from-reference" + sfx, "fmin_powell -> x=%r f=%r (iter, funcalls, warnflag)=%r direc=%r ; reference -> x=%r f=%r %r direc=%r"
                         % (a["x"], a["f"], res_a, a["direc"], b["x"], b["f"], res_b, b["direc"])))
     else:
         hadd(hist, "powell:identical")
@@ -981,34 +1135,56 @@ def run_shard(pid, seed, shard, ncases, tier, extra):
         rng = case_rng(PID + "/nm", seed, shard, k)
         c = gen_nm_case(rng, tier)
         route = "solver" if rng.random() < 0.3 else "fmin"
+        nonstd = NMX.nonstandard(c)
+        if nonstd:
+            route = "solver"            # `adaptive` and `radius` are keywords of the solver class only
         case = dict(ident("nm", k)); case.update({"x0": c["x0"], "x0_given_as": c["x0kind"], "cost": dsl.expr_sexp(c["expr"]), "xtol": c["xtol"], "ftol": c["ftol"],
                                                   "maxiter": c["maxiter"], "maxfun": c["maxfun"], "route": route, "flavour": c["flavour"],
-                                                  "boundary": c["boundary"]})
+                                                  "boundary": c["boundary"], "adaptive": c["adaptive"], "radius": c["radius"], "keywords_via": c["via"]})
         zero = any(v == 0.0 for v in c["x0"])
+        if nonstd and NMX.ref_variant() is None:
+            hadd(hist, "nm:skipped(reference source has no coefficient / constant line to parametrise)")
+            continue
         try:
             a = NMX.run_nm(route, c); b = NMX.run_nm("ref", c)
-            bz = NMX.run_nm("refz", c) if (zero and NMX.ref_with_zdelt(ZDELT_MYSTIC) is not None) else None
+            if nonstd:
+                bz = (b if c["radius"] is not None else NMX.run_nm("refz", c)) if zero else None
+            else:
+                bz = NMX.run_nm("refz", c) if (zero and NMX.ref_with_zdelt(ZDELT_MYSTIC) is not None) else None
+            bv = NMX.run_nm("refvar-defaults", c) if (not nonstd and k % 5 == 0 and NMX.ref_variant() is not None) else None
         except Exception as exc:
             findings.append(Finding("monitor", "fmin/raises/%s" % type(exc).__name__, "%s raised %r" % (route, exc), case))
             continue
         evals += 1
         case[route] = NMX.public(a); case["reference"] = NMX.public(b)
         res, nt = NMX.nm_monitor(c, route, a, b, bz, hist)
+        res += NMX.scipy_nm_monitor(c, route, a, hist)
         if NMX.started(c):
             NMX.tie_census(c, b, hist)
         for key, what in res:
             findings.append(Finding("monitor", key, what, case))
+        if bv is not None:
+            # harness self-check: the parametrised copy of the reference's source, run with the reference's own values, IS the reference
+            hadd(hist, "nm:reference-variant-self-check")
+            if NMX.first_diff(bv, b) is not None or not NMX.result_eq(bv, b, not b["nan"]):
+                findings.append(Finding("correspondence", "reference-variant/differs-from-reference-source", "parametrised copy -> %s ; reference -> %s"
+                                        % (NMX.describe(bv), NMX.describe(b)), case))
         if nt:
             nontrivial += 1
         if a["nan"] or b["nan"]:
             continue
-        lines.append(fmin_request("ref", c, ZDELT_REF)); handlers.append(("fmin", ("ref-vs-transcription", b), case))
+        rad = c["radius"]
+        zd_pub = ZDELT_REF if rad is None else NMX.mystic_zdelt(c)
+        lines.append(fmin_request("ref", c, zd_pub)); handlers.append(("fmin", ("ref-vs-transcription", b), case))
         if route == "fmin" and not c["xtol"]:
             continue                # `if xtol:` installs another stop rule (known finding N1): the model is of the CRT loop
-        lines.append(fmin_request("mystic", c, ZDELT_REF)); handlers.append(("fmin", ("mystic-vs-model", a), case))
+        if rad is not None and zero and (rad ** 2) != rad * rad:
+            hadd(hist, "nm:model:radius**2-is-not-radius*radius(skipped)")      # python's pow vs one multiplication (0.09 % of floats)
+        else:
+            lines.append(fmin_request("mystic", c, ZDELT_REF)); handlers.append(("fmin", ("mystic-vs-model", a), case))
         if NMX.started(c):
             # the reference algorithm run with mystic's initial-simplex constant must reproduce the real fmin exactly
-            lines.append(fmin_request("ref", c, ZDELT_MYSTIC)); handlers.append(("fmin", ("mystic-vs-reference-transcription", a), case))
+            lines.append(fmin_request("ref", c, NMX.mystic_zdelt(c))); handlers.append(("fmin", ("mystic-vs-reference-transcription", a), case))
         if len(samples) < 3 and nt:
             samples.append(case)
     # ---------------- Nelder-Mead: the real solver stepped, per-step replay (branch coverage)
@@ -1032,8 +1208,10 @@ def run_shard(pid, seed, shard, ncases, tier, extra):
         rng = case_rng(PID + "/powell", seed, shard, k)
         c = gen_powell_case(rng, tier)
         case = dict(ident("powell", k)); case.update({"x0": c["x0"], "cost": dsl.expr_sexp(c["expr"]), "xtol": c["xtol"], "ftol": c["ftol"],
-                                                      "maxiter": c["maxiter"], "maxfun": c["maxfun"], "direc": c["direc"], "imax": c.get("imax")})
-        hadd(hist, "powell:imax:%s" % ("default" if c.get("imax") is None else c["imax"]))
+                                                      "maxiter": c["maxiter"], "maxfun": c["maxfun"], "direc": c["direc"], "imax": c.get("imax"),
+                                                      "direc_given_as": c.get("direc_kind"), "direc_family": c.get("direc_family"), "route": c.get("route")})
+        hadd(hist, "powell:imax:%s" % ("default" if c.get("imax") is None else c["imax"])); hadd(hist, "powell:x0-given-as:%s" % c.get("x0kind", "list"))
+        case["x0_given_as"] = c.get("x0kind", "list")
         for v in c["x0"]:
             hadd(hist, "powell:x0-coordinate:%s" % NMX.coord_class(v))
         try:
@@ -1232,9 +1410,16 @@ def main(tier, seed):
             "smallest normal, denormals), 10%% huge (1e3..1e22, 2**53 +- ulp, 1e154, max/1.05 +- ulp, max), 15%% mixed; x0 given as list / tuple / ndarray / ints; "
             "xtol/ftol 0.5..1e-10, at the coordinates' scale, 0, denormal, 1e300, inf; 14%% boundary cases: xtol / ftol EXACTLY the value the convergence test "
             "compares at some iteration of that run (and one ulp either side), maxfun / maxiter exactly the counts after some iteration (and +-1); limits incl. "
-            "0,1,N+1) + 0.5 stepped "
+            "0,1,N+1; 30%% of the cases with adaptive=True and 22%% with a radius (0, 1e-8 .. 10, negative), given to Solve or set as attributes - these run the solver class "
+            "against the reference's own source with its coefficient line replaced by the published Gao-Han set (1, 1+2/n, 3/4-1/(2n), 1-1/n) and nonzdelt / zdelt by radius / "
+            "radius**2*0.1; 12%% extra one-dimensional cases; 22%% of the ordinary starts on objectives that are not unimodal along a line (bowl + triangle wave, sawtooth, double "
+            "well, notches: failed contractions, shrink steps); every run that does not stop on the evaluation limit is also compared evaluation for evaluation with the installed "
+            "scipy.optimize Nelder-Mead incl. adaptive) + 0.5 stepped "
             "NelderMeadSimplexSolver runs (per-step replay, branch histogram) + 3 fmin_powell cases (real vs reference with recorded Brent searches vs "
-            "Lean bookkeeping model AND vs the whole run recomputed from x0 with the modelled Brent; dim 1-%d, custom direction sets, guess at the optimum, "
+            "Lean bookkeeping model AND vs the whole run recomputed from x0 with the modelled Brent; dim 1-%d; 55%% with a direction set: identity, permutations, signed permutations, "
+            "+-1 bases, small-integer, scaled / skew / generic float, singular - handed over as nested lists / tuples of ints, floats, bools or both, ndarrays of int8..int64, uint8, bool, "
+            "object, float16/32/64, Fortran order, transposed views, lists of row arrays; x0 as list / tuple / ndarray / ints / integer ndarray; xtol incl. 0, denormal, >= 1e-2; "
+            "imax 0..40; 40%% through PowellDirectionalSolver.Solve with keywords or sticky attributes; guess at the optimum, "
             "constant objective, plateau / exchange-symmetric / small-integer landscapes for the exact-equality branches) + 2 bracket + 4 brent cases on generated "
             "1-D functions (23 kinds: smooth, kinked, flat, steps, spikes, unbounded below, NaN regions, minima at 1e6..1e15; +inf outside strict ranges; brack "
             "None/2/3/malformed; tol 0..1; maxiter 0..500; grow_limit 1..1000) + 2 _linesearch_powell calls (mystic's and the reference's; n-D costs, zero / tiny / "
